@@ -430,6 +430,11 @@ def replay(cfg, events):
                             import re
                             text = ("BASE <http://wrong.example/first/> BASE <urn:x:> PREFIX x: <> BASE <http://wrong.example/last/> PREFIX w: <w#>\n"
                                     + re.sub(r"<urn:x:([A-Za-z][A-Za-z0-9]*)>", r"x:\1", text))
+                        elif e.get("prefixed") == "esc":
+                            # prefixed names whose local part needs PN_LOCAL_ESC (a backslash before . , ~ ( ) and the like): the same IRI
+                            import re
+                            esc = lambda m: "x:" + re.sub(r"([~.\-!$&'()*+,;=/?#@%])", r"\\\1", m.group(1))
+                            text = "PREFIX x: <urn:x:>\n" + re.sub(r"<urn:x:([^<>\s]+)>", esc, text)
                         elif e.get("prefixed") == "two":
                             # two prefixes declared for one namespace, both used (alternately); a third one declared twice, for another namespace first
                             import re
